@@ -448,7 +448,13 @@ def run(args):
                    "call's positive precondition literals so that about half of these probes are applicable), three hand-written corpus domains "
                    "(:private predicates in an untyped domain; a constant named 'object', constants in literals and fluents, an untyped trailing constant; "
                    "deep nesting with a quantifier inside a disjunction) and the witnesses of the recorded findings. Each case yields the units export / reparse / second and one "
-                   "per probe. Non-trivial: a parsed, non-corpus case; probe units need a state with at least one fact. Distinct by input hash.")
+                   "per probe. Process-level sequences (input_distribution.sequences): for a sample of the plain worlds ONE DomainExporter, ONE Domain object "
+                   "and ONE output path are used again and again - export; run every probe on that Domain object and export again; parse and export ANOTHER "
+                   "domain through the same exporter and path (judged against its own text), then the first again; change_signature of one action (fresh names / "
+                   "one parameter / a swap) and export, judged against the text whose action the generator renamed; the inverse renaming and export, judged "
+                   "against the original text - every stage a full case whose file is read back; every exported text must be ONE complete form (strict reader). "
+                   "Non-trivial: a parsed, non-corpus case (for sequences: every stage after the first); probe units need a state with at least one fact. "
+                   "Distinct by input hash.")
     samples = [c for c in all_cases if c["input"]["unit"] == "export"][:2] + [c for c in all_cases if c["input"]["unit"].startswith("probe")][:2]
     cov["samples"] = [{"unit": c["input"]["unit"], "domain": (c["input"]["case"].get("domain_text") or c["input"]["case"].get("domain_path"))[:500],
                        "exported": (c["input"]["implementation"].get("x1") or "")[:300], "probe": c["input"]["probe"] and
